@@ -50,6 +50,32 @@ def _assign_counts(fn):
     return counts
 
 
+def _loop_local_alias(fn, definition, alias: str, loop_vars: set) -> bool:
+    """The alias is defined inside a for-loop over the variables it mentions, these are bound by for-statements only (the
+    same name in another loop is another variable there), are not written inside this loop, and every use of the alias
+    lies in that same loop body."""
+    fors = [x for x in walk_no_nested(fn) if isinstance(x, ast.For)]
+    for v in loop_vars:
+        stores = [x for x in walk_no_nested(fn) if isinstance(x, ast.Name) and x.id == v and isinstance(x.ctx, (ast.Store, ast.Del))]
+        targets = [t for f in fors for t in ast.walk(f.target) if isinstance(t, ast.Name)]
+        if not all(any(s is t for t in targets) for s in stores):
+            return False
+    enclosing = [f for f in fors if any(x is definition for b in f.body for x in ast.walk(b)) and loop_vars <= {t.id for t in ast.walk(f.target) if isinstance(t, ast.Name)}]
+    if not enclosing:
+        return False
+    inner = min(enclosing, key=lambda f: sum(1 for _ in ast.walk(f)))
+    inside = {id(x) for b in inner.body for x in ast.walk(b)}
+    uses = [x for x in walk_no_nested(fn) if isinstance(x, ast.Name) and x.id == alias]
+    if not all(id(u) in inside for u in uses):
+        return False
+    # no nested loop inside re-binds the variables
+    for b in inner.body:
+        for x in ast.walk(b):
+            if isinstance(x, ast.For) and any(isinstance(t, ast.Name) and t.id in loop_vars for t in ast.walk(x.target)):
+                return False
+    return True
+
+
 def _alias_pass(fn) -> bool:
     counts = _assign_counts(fn)
     stored = set()
@@ -64,7 +90,8 @@ def _alias_pass(fn) -> bool:
                 continue
             # the definition must not mention a local that is rebound (loop variables are fine: the alias lives in the
             # loop body), and the aliased reference itself must not be re-bound in the function (`old = self.x; self.x = new`)
-            if any(isinstance(x, ast.Name) and len(counts.get(x.id, [])) > 1 for x in ast.walk(n.value)):
+            rebound = [x.id for x in ast.walk(n.value) if isinstance(x, ast.Name) and len(counts.get(x.id, [])) > 1]
+            if rebound and not _loop_local_alias(fn, n, name, set(rebound)):
                 continue
             ref = norm(n.value)
             if any(ref == st or ref.startswith(st + ".") or ref.startswith(st + "[") for st in stored):
@@ -362,6 +389,42 @@ def _while_true_pass(fn) -> bool:
             rec(st, 0)
         return out
 
+    def continues_of(loop):
+        out = []
+
+        def rec(x):
+            for ch in ast.iter_child_nodes(x):
+                if isinstance(ch, (ast.FunctionDef, ast.AsyncFunctionDef, ast.Lambda, ast.ClassDef, ast.While, ast.For)):
+                    continue
+                if isinstance(ch, ast.Continue):
+                    out.append(ch)
+                rec(ch)
+
+        for st in loop.body:
+            if isinstance(st, ast.Continue):
+                out.append(st)
+            elif not isinstance(st, (ast.While, ast.For)):
+                rec(st)
+        return out
+
+    # do-while with a flag: `F = True; while True: BODY; if not F: break` is `F = True; while F: BODY`
+    for owner, field, lst in list(_stmt_lists(fn)):
+        for i, n in enumerate(lst):
+            if not (isinstance(n, ast.While) and isinstance(n.test, ast.Constant) and n.test.value is True and not n.orelse and len(n.body) >= 2):
+                continue
+            last = n.body[-1]
+            if not (isinstance(last, ast.If) and not last.orelse and len(last.body) == 1 and isinstance(last.body[0], ast.Break)
+                    and isinstance(last.test, ast.UnaryOp) and isinstance(last.test.op, ast.Not) and isinstance(last.test.operand, ast.Name)):
+                continue
+            flag = last.test.operand.id
+            if len(breaks_of(n)) != 1 or continues_of(n):
+                continue
+            before = [st for st in lst[:i] if any(isinstance(x, ast.Name) and x.id == flag and isinstance(x.ctx, ast.Store) for x in ast.walk(st))]
+            if not before or not (isinstance(before[-1], ast.Assign) and isinstance(before[-1].value, ast.Constant) and before[-1].value.value is True):
+                continue
+            n.test = ast.copy_location(ast.Name(id=flag, ctx=ast.Load()), last.test)
+            n.body = n.body[:-1]
+            changed = True
     for n in list(ast.walk(fn)):
         if isinstance(n, ast.While) and isinstance(n.test, ast.Constant) and n.test.value is True and not n.orelse and n.body:
             first = n.body[0]
